@@ -268,6 +268,17 @@ func init() {
 		g.quiesce()
 		return mkBool(ok)
 	})
+	V("FireTimerN", func(g *G, a []Value, pos token.Pos) Value {
+		g.quiesce()
+		p := g.vm.pendingTimers()
+		i := argInt(g, a[0])
+		if i < 0 || i >= len(p) {
+			return mkBool(false)
+		}
+		g.vm.fireTimer(p[i])
+		g.quiesce()
+		return mkBool(true)
+	})
 	V("PendingTimers", func(g *G, a []Value, pos token.Pos) Value { return mkInt(uint64(len(g.vm.pendingTimers()))) })
 	V("Now", func(g *G, a []Value, pos token.Pos) Value { return g.vm.now })
 	V("LiveGoroutines", func(g *G, a []Value, pos token.Pos) Value {
